@@ -35,4 +35,5 @@ for P in "$@"; do
 		*) echo "$name $P INCONCLUSIVE($code): $(echo "$out" | tail -2 | tr '\n' ' ' | cut -c1-200)";;
 	esac
 done
+if [ -n "${KEEP_REPLAYS:-}" ]; then mkdir -p "$KEEP_REPLAYS"; cp "$SCRATCH"/verif/replays/*.json "$KEEP_REPLAYS"/ 2>/dev/null; fi
 rm -rf "$SCRATCH"
